@@ -360,7 +360,10 @@ int main(int argc, char **argv)
 			int r = cds_lfht_destroy(ht, NULL);
 			emit("destroy", 0, 0, 0, r, 0, 0, 0, 0, 0, 0); fputs("}\n", logf);
 			if (r) { fl_read_lock(); it_valid = saved_valid; }
-			else if (!wq_n) ht = NULL;	/* else: freed by the queued destroy work below */
+			else {
+				it_valid = 0; memset(&it, 0, sizeof it);	/* the iterator dies with the table (its next pointer may be a freed bucket) */
+				if (!wq_n) ht = NULL;	/* else: freed by the queued destroy work below */
+			}
 			break; }
 		default:
 			drv_fail("PROGRAM unknown line: %s", line);
